@@ -2,7 +2,9 @@ package main
 
 import (
 	"bytes"
+	"errors"
 	"fmt"
+	"io"
 	"os"
 	"path/filepath"
 	"reflect"
@@ -620,6 +622,86 @@ func c13(run *ev.Run, tier string) {
 					v = *got
 				}
 				run.Violate("C13/"+f+"/empty-override-value-replaces-base/signature.key_id", map[string]any{"override_value": empty, "got": v, "want": "bc8acdd415bd80b3"})
+			}
+		}
+	}
+
+	// part 2f: asking twice for the same format gives the same settings and leaves
+	// the override block alone - also when the block has a contents list of its
+	// own with entries addressed to other packagers in front
+	for _, f := range formats {
+		other := formats[(indexOf(formats, f)+1)%len(formats)]
+		c := baseCfg(false)
+		c.Info.Contents = files.Contents{{Source: payload, Destination: "/opt/ovr/base.txt"}}
+		c.Overrides = map[string]*nfpm.Overridables{f: {Contents: files.Contents{
+			{Source: payload, Destination: "/opt/ovr/for-other-1.txt", Packager: other},
+			{Source: payload, Destination: "/opt/ovr/for-other-2.txt", Packager: other},
+			{Source: payload, Destination: "/opt/ovr/for-this.txt", Packager: f},
+			{Source: payload, Destination: "/opt/ovr/for-all.txt"},
+			{Source: payload, Destination: "/opt/ovr/for-this-too.txt", Packager: f},
+		}}}
+		y, _ := configYAML(c)
+		cfg, err := parseYAML(y, nil)
+		run.Case("get-twice|"+f, true)
+		if err != nil {
+			run.Violate("C13/parse-error", map[string]any{"error": err.Error()})
+			continue
+		}
+		dsts := func(info *nfpm.Info) string {
+			var out []string
+			for _, e := range info.Contents {
+				out = append(out, e.Destination+"@"+e.Packager)
+			}
+			return strings.Join(out, " ")
+		}
+		want := "/opt/ovr/for-this.txt@" + f + " /opt/ovr/for-all.txt@ /opt/ovr/for-this-too.txt@" + f
+		for k := 0; k < 3; k++ {
+			info, err := cfg.Get(f)
+			atomic.AddInt64(&leafCmp, 1)
+			if err != nil {
+				run.Violate("C13/"+f+"/get-error", map[string]any{"call": k + 1, "error": err.Error()})
+				break
+			}
+			if got := dsts(info); got != want {
+				run.Violate("C13/"+f+"/effective-contents-differ-between-calls", map[string]any{"call": k + 1, "got": got, "want": want})
+				break
+			}
+		}
+		if got := len(cfg.Overrides[f].Contents); got != 5 || cfg.Overrides[f].Contents[0].Destination != "/opt/ovr/for-other-1.txt" || cfg.Overrides[f].Contents[2].Destination != "/opt/ovr/for-this.txt" {
+			run.Violate("C13/override-block-changed-by-get/contents", map[string]any{"format": f, "entries": got})
+		}
+	}
+	// part 2g: a signing callback set on the base settings by a library caller is
+	// part of every format's effective settings
+	{
+		c := baseCfg(false)
+		c.Info.Contents = files.Contents{{Source: payload, Destination: "/opt/ovr/p.txt"}}
+		c.Overrides = map[string]*nfpm.Overridables{"rpm": {Depends: []string{"x"}}, "apk": {Depends: []string{"y"}}}
+		y, _ := configYAML(c)
+		if cfg, err := parseYAML(y, nil); err == nil {
+			called := map[string]int{}
+			cfg.Deb.Signature.SignFn = func(io.Reader) ([]byte, error) { called["deb"]++; return nil, errors.New("verif: callback reached") }
+			cfg.RPM.Signature.SignFn = func(io.Reader) ([]byte, error) { called["rpm"]++; return nil, errors.New("verif: callback reached") }
+			cfg.APK.Signature.SignFn = func(io.Reader) ([]byte, error) { called["apk"]++; return nil, errors.New("verif: callback reached") }
+			for _, f := range []string{"deb", "rpm", "apk"} {
+				run.Case("base-signing-callback|"+f, true)
+				info, err := infoFor(&cfg, f)
+				if err != nil {
+					continue
+				}
+				var fn func(io.Reader) ([]byte, error)
+				switch f {
+				case "deb":
+					fn = info.Deb.Signature.SignFn
+				case "rpm":
+					fn = info.RPM.Signature.SignFn
+				default:
+					fn = info.APK.Signature.SignFn
+				}
+				res := packageInfo(f, info)
+				if fn == nil || called[f] == 0 || res.Err == nil {
+					run.Violate("C13/"+f+"/base-signing-callback-lost", map[string]any{"callback_in_effective_settings": fn != nil, "calls": called[f], "package_error": fmt.Sprint(res.Err), "has_override_block": c.Overrides[f] != nil})
+				}
 			}
 		}
 	}
